@@ -284,7 +284,7 @@ func init() {
 		"strings.TrimSpace": S(func(i *Interp, a []value) value {
 			return i.trimRightSet(i.trimLeftSet(sterm(a[0]), spaceSet), spaceSet)
 		}),
-		"strings.TrimLeft": S(func(i *Interp, a []value) value { return i.trimLeftSet(sterm(a[0]), cstr(a[1])) }),
+		"strings.TrimLeft":  S(func(i *Interp, a []value) value { return i.trimLeftSet(sterm(a[0]), cstr(a[1])) }),
 		"strings.TrimRight": S(func(i *Interp, a []value) value { return i.trimRightSet(sterm(a[0]), cstr(a[1])) }),
 		"strings.Trim": S(func(i *Interp, a []value) value {
 			return i.trimRightSet(i.trimLeftSet(sterm(a[0]), cstr(a[1])), cstr(a[1]))
